@@ -983,4 +983,4 @@ def run(prog, rep, tier):
     check_operators(prog, rep)
     check_bridge(prog, rep)
     check_bound_sync(prog, rep)
-    wire(prog, rep, "C06", 4, 260)
+    wire(prog, rep, "C06", 4, 260, 20)
